@@ -32,7 +32,9 @@ class MarkB(Plugin):
 '''
 SDL = """
 type Query { user: User! me: User node(id: ID): Node thing: Thing users: [User!]! when(d: Date): Date count: Int! favourite: Color shades: [Color!] echo(query: String, variables: Int, response: ID, data: Int): Int }
-type Mutation { rename(name: String!, f: Filter): User }
+type Mutation { rename(name: String!, f: Filter): User up(f: Upload!, a: Att): Boolean }
+scalar Upload
+input Att { file: Upload, note: String }
 type Subscription { tick: Int! }
 interface Node { id: ID! }
 type User implements Node { id: ID! name: String color: Color }
@@ -55,6 +57,7 @@ query Fav { favourite }
 query Shades { shades }
 query Loc($query: String, $variables: Int, $response: ID, $data: Int) { echo(query: $query, variables: $variables, response: $response, data: $data) }
 mutation Mu($n: String!, $f: Filter) { rename(name: $n, f: $f) { id } }
+mutation Up($f: Upload!, $a: Att) { up(f: $f, a: $a) }
 subscription Su { tick }
 query RootFr { ...OuterQ }
 query RootOne { ...InnerQ }
@@ -76,12 +79,13 @@ PAYLOADS = {
     "Shades": {"shades": ["RED", "GREEN"]},
     "Loc": {"echo": 1},
     "Mu": {"rename": None},
+    "Up": {"up": True},
     "Su": {"tick": 5},
     "RootFr": {"count": 4, "me": {"name": "z"}},
     "RootOne": {"count": 9},
     "RootMix": {"count": 1, "users": []},
 }
-SINGLE_TOP = {"One": "user", "Un": "thing", "Fr": "user", "Li": "users", "Sc": "when", "Cnt": "count", "typing": "user", "Fav": "favourite", "Shades": "shades", "Loc": "echo", "Mu": "rename", "Su": "tick", "RootOne": "count"}
+SINGLE_TOP = {"One": "user", "Un": "thing", "Fr": "user", "Li": "users", "Sc": "when", "Cnt": "count", "typing": "user", "Fav": "favourite", "Shades": "shades", "Loc": "echo", "Mu": "rename", "Up": "up", "Su": "tick", "RootOne": "count"}
 
 ORDERS = [()]
 # quick tier: every ordered selection of <= 3 plugins + all five in two orders; thorough tier: every ordered selection (326)
